@@ -238,7 +238,9 @@ def baseline_of(modules: typing.Dict[str, typing.Any]) -> dict:
     for q, f in fs.items():
       ap = in_private_class(q)
       h, locs, attrs = skeleton(f, keep, all_attrs_private=ap)
-      d[q] = {"h": h, "h2": skeleton2(f, keep, priv, ap), "locals": locs, "attrs": attrs}
+      d[q] = {"h": h, "h2": skeleton2(f, keep, priv, ap), "locals": locs, "attrs": attrs,
+              "list_inits": sorted({st.targets[0].id for st in _own_walk(f) if isinstance(st, ast.Assign) and len(st.targets) == 1 and isinstance(st.targets[0], ast.Name)
+                                    and isinstance(st.value, ast.List) and not st.value.elts})}
     out[name] = d
     out.setdefault("_module_names", {})[name] = sorted(keep)
   return out
@@ -720,6 +722,64 @@ def prefilter_loops(q, fn, log, name):
     log.append(f"{name}: {done} loop(s) over a filtering comprehension in `{q}` read as loop + if")
 
 
+def expand_comprehensions(q, fn, list_inits, log, name):
+  """`xs = [e for t in it if c]` where the reference builds `xs` with `xs = []` and an append loop
+  is written back as that loop (`xs = []; for t in it: if c: xs.append(e)`); an assignment
+  expression in the condition becomes the assignment statement it abbreviates.  Same items, same order."""
+  done = []
+  for st in list(_own_walk(fn)):
+    if not (isinstance(st, ast.Assign) and len(st.targets) == 1 and isinstance(st.targets[0], ast.Name) and st.targets[0].id in list_inits
+            and isinstance(st.value, ast.ListComp) and len(st.value.generators) == 1 and not st.value.generators[0].is_async):
+      continue
+    hold = _holder(st)
+    if hold is None:
+      continue
+    lst, i = hold
+    x = st.targets[0].id
+    comp = st.value
+    g = comp.generators[0]
+    pre, tests = [], []
+    for t in g.ifs:
+      t = _clone(t)
+      for w in [n for n in ast.walk(t) if isinstance(n, ast.NamedExpr)]:
+        pre.append(ast.Assign(targets=[ast.Name(id=w.target.id, ctx=ast.Store())], value=w.value))
+        _replace_in(t, w, ast.Name(id=w.target.id, ctx=ast.Load()))
+        if t is w:
+          t = ast.Name(id=w.target.id, ctx=ast.Load())
+      tests.append(t)
+    app = ast.Expr(value=ast.Call(func=ast.Attribute(value=ast.Name(id=x, ctx=ast.Load()), attr="append", ctx=ast.Load()), args=[_clone(comp.elt)], keywords=[]))
+    body = [app]
+    if tests:
+      body = [ast.If(test=tests[0] if len(tests) == 1 else ast.BoolOp(op=ast.And(), values=tests), body=[app], orelse=[])]
+    loop = ast.For(target=_clone(g.target), iter=_clone(g.iter), body=pre + body, orelse=[])
+    init = ast.Assign(targets=[ast.Name(id=x, ctx=ast.Store())], value=ast.List(elts=[], ctx=ast.Load()))
+    for n_ in (init, loop):
+      ast.copy_location(n_, st)
+      for sub in ast.walk(n_):
+        if not hasattr(sub, "lineno"):
+          ast.copy_location(sub, st)
+      ast.fix_missing_locations(n_)
+    lst[i:i + 1] = [init, loop]
+    done.append(x)
+  if done:
+    relink(fn)
+    log.append(f"{name}: list comprehension(s) building {', '.join(done)} in `{q}` written back as the reference's append loop")
+
+
+def _replace_in(root, old, new):
+  for p in ast.walk(root):
+    for fld, val in ast.iter_fields(p):
+      if val is old:
+        setattr(p, fld, new)
+        return True
+      if isinstance(val, list):
+        for k, v in enumerate(val):
+          if v is old:
+            val[k] = new
+            return True
+  return False
+
+
 def result_var_to_returns(q, fn, base_locals, log, name):
   """`if c: v = a  elif d: v = b  else: v = e ; return v` with a local v the reference does not
   have is the single-exit spelling of `if c: return a ...`: the early returns are restored."""
@@ -900,9 +960,13 @@ def inline_new_constants(name, tree, ref_names, imported_elsewhere, log):
 # driver
 # ---------------------------------------------------------------------------------------
 
+DIFFERS = [False]     # set by canonicalise: the analysed tree is not the reference tree (some function's skeleton differs, or functions were added / removed)
+
+
 def canonicalise(modules: typing.Dict[str, typing.Any], baseline: typing.Optional[dict] = None) -> typing.List[str]:
   """Mutates m.tree of the given modules; returns a log of what was mapped back."""
   log: typing.List[str] = []
+  DIFFERS[0] = False
   baseline = baseline if baseline is not None else load_baseline()
   if not baseline:
     return log
@@ -938,6 +1002,8 @@ def _canon_module(name, m, base, log, attr_renames):
   cur = functions_of(tree)
   missing = [q for q in base if q not in cur]
   new = [q for q in cur if q not in base]
+  if missing or new:
+    DIFFERS[0] = True
   # --- A. renamed functions -----------------------------------------------------------
   if missing and new:
     priv = private_names(cur)
@@ -1017,8 +1083,10 @@ def _canon_module(name, m, base, log, attr_renames):
       continue
     h, locs, attrs = skeleton(fn, keep, all_attrs_private=in_private_class(q))
     if h != b["h"]:
+      DIFFERS[0] = True
       try:
         result_var_to_returns(q, fn, b["locals"], log, name)
+        expand_comprehensions(q, fn, set(b.get("list_inits", ())), log, name)
         prefilter_loops(q, fn, log, name)
         inline_new_locals(q, fn, b["locals"], log, name)
       except Exception as e:
